@@ -150,8 +150,116 @@ def value_scenario(backend, root_dir):
     return fails
 
 
+def chain_scenario(backend, root_dir):
+    """context arguments attached to a function object that already carries some replace them entirely ({} clears them),
+    at the root and at a nested edge"""
+    leaf = dict(explicit=False, stmts=[], const=1, **{"raise": [0, 0, 0, 0]})
+    prog = dict(fns={1: leaf, 2: dict(explicit=False, stmts=[["call", 1, 0, "i", False, False, False, False, [0, 0]]], const=2,
+                                      **{"raise": [0, 0, 0, 0]})})
+    w = progs.RunWorld(prog, backend=backend, root=root_dir, use_model=False)
+    fails = []
+    A, B = {"region": "eu"}, {"k": 2}
+    try:
+        f1, f2 = w.mod.f1, w.mod.f2
+
+        def ran(fn, x):
+            progs.REC.calls.clear()
+            fn(x)
+            return sorted((c[0], c[2]) for c in progs.REC.calls)
+        steps = [
+            ("f2.with_context_args(B)(7)", f2.with_context_args(B), 7, [(1, 2), (2, 2)]),
+            ("f2.with_context_args(A).with_context_args(B)(7)", f2.with_context_args(A).with_context_args(B), 7, []),
+            ("f2(8)", f2, 8, [(1, 0), (2, 0)]),
+            ("f2.with_context_args(A).with_context_args({})(8)", f2.with_context_args(A).with_context_args({}), 8, []),
+            ("f2.with_context_args(B).with_context_args(A)(9)", f2.with_context_args(B).with_context_args(A), 9, [(1, -1), (2, -1)]),
+            ("f2.with_context_args(A)(9)", f2.with_context_args(A), 9, []),
+            ("f1.with_context_args(A).with_context_args(B)(7)", f1.with_context_args(A).with_context_args(B), 7, []),
+        ]
+        for text, fn, x, want in steps:
+            got = ran(fn, x)
+            if got != want:
+                fails.append(dict(clause="own-context-replaces-entirely", call=text, executed=got, expected=want))
+        mm = f2.with_context_args(A).with_context_args(B).memento(7)
+        ca = None if mm is None else mm.invocation_metadata.fn_reference_with_args.context_args
+        if mm is None or dict(ca or {}) != B:
+            fails.append(dict(clause="own-context-replaces-entirely", call="f2.with_context_args(A).with_context_args(B).memento(7)", context_args=repr(ca)))
+    finally:
+        w.close()
+    return fails
+
+
+def thread_scenario(backend, root_dir):
+    """a root call on one thread while a call with context arguments (or with further calls prevented) is in flight on
+    another thread: context flows down the *call tree*, not across threads"""
+    import threading
+    leaf = dict(explicit=False, stmts=[], const=1, **{"raise": [0, 0, 0, 0]})
+    prog = dict(fns={1: leaf, 2: dict(explicit=False, stmts=[["call", 1, 0, "i", False, False, False, False, [0, 0]]], const=2,
+                                      **{"raise": [0, 0, 0, 0]})})
+    w = progs.RunWorld(prog, backend=backend, root=root_dir, use_model=False)
+    fails = []
+    main = threading.current_thread()
+    orig = progs.REC.enter
+    ev = {}
+
+    def enter(name, kwargs):
+        orig(name, kwargs)
+        if name == "f2" and threading.current_thread() is not main:
+            ev["started"].set()
+            ev["go"].wait(30)
+    try:
+        f1, f2 = w.mod.f1, w.mod.f2
+        # (the recorder is what the generated bodies call: the hook stays in place for the whole scenario, so that the
+        # functions' versions are the same for the calls and for the queries)
+        progs.REC.__dict__["enter"] = enter
+        for phase, (mk, x) in enumerate([(lambda: f2.with_context_args({"k": 1}), 1), (lambda: f2.with_prevent_further_calls(True), 2)]):
+            started, go = threading.Event(), threading.Event()
+            ev.update(started=started, go=go)
+            progs.REC.calls.clear()
+            res = {}
+
+            def bg(mk=mk, x=x):
+                try:
+                    res["A"] = ("ok", mk()(x))
+                except BaseException as e:      # noqa
+                    res["A"] = ("raise", type(e).__name__, str(e)[:160])
+            t = threading.Thread(target=bg, daemon=True)
+            t.start()
+            if not started.wait(20):
+                fails.append(dict(clause="no-internal-error", note="background call never started", phase=phase))
+            try:
+                res["main"] = ("ok", f1(50 + phase))
+            except Exception as e:
+                res["main"] = ("raise", type(e).__name__, str(e)[:160])
+            mine = [c for c in progs.REC.calls if c[0] == 1 and c[1].get("a") == 50 + phase]
+            go.set()
+            t.join(30)
+            if res["main"][0] != "ok":
+                fails.append(dict(clause="context-stays-in-its-call-tree", phase=phase, note="a root call on another thread failed", got=res["main"]))
+                continue
+            if [c[2] for c in mine] != [0]:
+                fails.append(dict(clause="context-stays-in-its-call-tree", phase=phase, note="context seen by the root call's body", got=[c[2] for c in mine]))
+            if f1.memento(50 + phase) is None:
+                fails.append(dict(clause="context-stays-in-its-call-tree", phase=phase, note="the root call made without context args is not stored under no context args"))
+            if phase == 0:
+                if res.get("A", ("",))[0] != "ok":
+                    fails.append(dict(clause="no-internal-error", got=res.get("A")))
+                mm = f2.with_context_args({"k": 1}).memento(1)
+                inv = None if mm is None else sorted((i.fn_reference.function_name, tuple(i.args), tuple(sorted(i.kwargs.items())))
+                                                     for i in mm.invocation_metadata.invocations)
+                if inv != [("f1", (), (("a", 1),))] and inv != [("f1", (1,), ())]:
+                    fails.append(dict(clause="context-stays-in-its-call-tree", note="invocations recorded for the call in flight", got=repr(inv)))
+    finally:
+        progs.REC.__dict__.pop("enter", None)
+        w.close()
+    return fails
+
+
 def main(chk, replay=None):
     if replay is not None:
+        if replay.get("kind") in ("chain", "threads"):
+            fails = (chain_scenario if replay["kind"] == "chain" else thread_scenario)(replay["backend"], None)
+            print(json.dumps(dict(still_fails=bool(fails), observed=fails[:3]), default=str))
+            return 1 if fails else 0
         if replay.get("kind") == "values":
             fails = value_scenario(replay["backend"], None)
             print(json.dumps(dict(still_fails=bool(fails), observed=fails[:3]), default=str))
@@ -161,7 +269,7 @@ def main(chk, replay=None):
         return 1 if r["fails"] else 0
     chk.rule = ("generated call-DAG programs with context overrides ({k:1}, {k:2}, {}) on ~40% of the inner edges, cached and "
                 "uncached sub-calls, batches; scenario per (program, root): call under context 1, under 2, under 1 again, "
-                "mementos per context, empty override, then with_prevent_further_calls. Distinct = distinct (program, root, "
+                "mementos per context, empty override, then with_prevent_further_calls; context dictionaries with falsy / type-differing values; context arguments attached twice to one function object; a root call on another thread while a call with context arguments / prevention is in flight. Distinct = distinct (program, root, "
                 "backend); non-trivial = program has >= 1 context override.")
     proof_ok = chk.build_and_audit()
     quick = chk.tier == "quick"
@@ -175,6 +283,13 @@ def main(chk, replay=None):
         for fl in fails[:2]:
             chk.violation({"what": "context arguments: %s for context %s" % (fl["clause"], fl.get("context")), "class": {"clause": fl["clause"], "kind": "values"},
                            "kind": "values", "backend": backend, "observed": fails[:3]})
+        for kind, fnc in (("chain", chain_scenario), ("threads", thread_scenario)):
+            fails = fnc(backend, chk.tmpdir())
+            chk.case(["context-" + kind, backend], nontrivial=True, sample=dict(kind="context " + kind, backend=backend))
+            chk.count("context-" + kind)
+            for fl in fails[:2]:
+                chk.violation({"what": "context arguments (%s): %s" % (kind, fl["clause"]), "class": {"clause": fl["clause"], "kind": kind},
+                               "kind": kind, "backend": backend, "observed": fails[:3]})
     Z = [0, 0]
     noexc = {"raise": [0, 0, 0, 0]}
     directed = [
